@@ -151,6 +151,8 @@ def ids_step(c0: bool, c1: bool, c2: bool, c3: bool, cn: bool, j: int) -> bool:
     m = Model()
     env = _world(m, kind, 5, 4, 3)
     ref = _prestate(m, env, r, [c0, c1, c2, c3], spatial)
+    if hx.P.get('completed'):
+        m.complete()            # post-run bookkeeping on a finished model: membership and listings still follow
     probe = IDS + ["ghost", "new"]
     if hx.P.get('alias'):
         # the deprecated camelCase entry points denote the same operations
@@ -229,6 +231,61 @@ def ids_step(c0: bool, c1: bool, c2: bool, c3: bool, cn: bool, j: int) -> bool:
     got_pool = m.systems[T1]
     if (got_pool is None) != (len(exp_pool) == 0) or (got_pool is not None and not hx.same_seq(got_pool, exp_pool)):
         return hx.end(hx.fail("component listing after operation"))
+    return hx.end(True)
+
+
+def modelless(j: int, op: int) -> bool:
+    """
+    pre: -1 <= j < 3 and 0 <= op < 4
+    post: _
+    """
+    # an environment used stand-alone, without a model (the test suite does so): membership, lookups and their documented
+    # errors do not depend on a model being there (agents carry no components - registering those needs a scheduler)
+    hx.begin()
+    kind = hx.P['world']
+    env = Environment(None) if kind == 'plain' else Env.SpaceWorld(None, 5, 4, 3)
+    ref = []
+    for i in range(3):
+        a = Agent(IDS[i], None)
+        if kind == 'plain':
+            env.add_agent(a)
+        else:
+            env.add_agent(a, i, 1, 0)
+        ref.append(a)
+    target_id = "ghost" if j < 0 else IDS[0] if j == 0 else IDS[1] if j == 1 else IDS[2]
+    if op == 0:
+        if j < 0:
+            hx.reach('rejected')
+            try:
+                env.remove_agent(target_id)
+                return hx.end(hx.fail("unknown id removed"))
+            except AgentNotFoundError:
+                pass
+        else:
+            hx.reach('accepted')
+            gone = hx.pick(ref, j)
+            env.remove_agent(target_id)
+            ref = [a for a in ref if a is not gone]
+    elif op == 1:
+        got = env.get_agent(target_id)
+        if got is not (None if j < 0 else hx.pick(ref, j)):
+            return hx.end(hx.fail("get_agent on a model-less environment", id=target_id))
+    elif op == 2:
+        if j < 0:
+            hx.reach('rejected')
+            try:
+                env.get_agent(target_id, True)
+                return hx.end(hx.fail("strict lookup of unknown id returned"))
+            except AgentNotFoundError:
+                pass
+        elif env.get_agent(target_id, True) is not hx.pick(ref, j):
+            return hx.end(hx.fail("strict get_agent on a model-less environment"))
+    else:
+        new = Agent("new", None)
+        env.add_agent(new)
+        ref = ref + [new]
+    if len(env) != len(ref) or not hx.same_seq(list(env), ref) or not hx.same_seq(env.get_agents(), ref):
+        return hx.end(hx.fail("membership of a model-less environment", got=[a.id for a in env], exp=[a.id for a in ref]))
     return hx.end(True)
 
 
@@ -455,6 +512,7 @@ def obligations(tier):
     parts = [{"r": r, "op": op, "world": "plain"} for r in (0, 2, 4) for op in ("add", "remove", "get", "get_strict")]
     parts += [{"r": 3, "op": op, "world": w} for w in ("space", "grid") for op in ("add", "remove")]
     parts += [{"r": 2, "op": op, "world": w, "alias": True} for w in ("plain", "space") for op in ("add", "remove", "get", "get_strict")]
+    parts += [{"r": 2, "op": op, "world": w, "completed": True} for w in ("plain", "space") for op in ("add", "remove")]
     if tier != "quick":
         parts += [{"r": r, "op": op, "world": "plain"} for r in (1, 3) for op in ("add", "remove", "get", "get_strict")]
         parts += [{"r": 2, "op": op, "world": w} for w in ("line", "discrete", "gridlike") for op in ("add", "remove")]
@@ -464,6 +522,8 @@ def obligations(tier):
         X("ids_step", ids_step, parts=parts, labels=("accepted", "rejected"),
           labels_for=lambda p: ("accepted", "rejected") if p["r"] else ("accepted",) if p["op"] == "add" else ("rejected",),
           timeout=300, group=2, encoded=senc, bounds={"residents": "0..4", "component flag per agent": "symbolic"}),
+        X("modelless", modelless, parts=[{"world": w} for w in ("plain", "space")], labels=("accepted", "rejected"), timeout=300, encoded=senc,
+          bounds={"residents": "3 component-less agents", "operation": "remove / get / strict get of any resident or an unknown id, add"}),
         X("spatial_bounds", spatial_bounds, parts=[{"world": w} for w in worlds], labels=("out_of_bounds", "duplicate", "placed"),
           timeout=600, encoded=senc, bounds={"extents": "all ints >= 0 (symbolic for space/gridlike)", "position": "all ints"}),
         X("history", history, parts=_hist_parts(k, ["plain"]) + _hist_parts(k if tier != "quick" else 2, ["space"]),
